@@ -108,6 +108,26 @@ func (x *Exec) eval(fr *frame, in ssa.Value) Val {
 			x.mustNot("(or (bvslt "+c64.term()+" "+bvc(64, n.uval())+") (bvsgt "+c64.term()+" "+bvc(64, 1<<40)+"))", "makeslice-range", "")
 			c = n
 		}
+		if !n.conc() {
+			// symbolic length: a negative or huge length is a run-time panic
+			// (obligation); small lengths are case-split
+			n64 := ext(n, 64, n.S)
+			x.mustNot("(or (bvslt "+n64.term()+" (_ bv0 64)) (bvsgt "+n64.term()+" (_ bv1099511627776 64)))", "makeslice-range", "")
+			found := false
+			for k := 0; k <= 24; k++ {
+				if x.truth(x.binInt(token.EQL, n64, mkInt(int64(k))).(Bool)) {
+					n = mkInt(int64(k))
+					found = true
+					break
+				}
+			}
+			if !found {
+				panic(unsupported{"symbolic make length above 24 at " + x.where()})
+			}
+			if !c.conc() {
+				c = n
+			}
+		}
 		if !n.conc() || !c.conc() {
 			panic(unsupported{"symbolic make length at " + x.where()})
 		}
@@ -130,7 +150,21 @@ func (x *Exec) eval(fr *frame, in ssa.Value) Val {
 	case *ssa.Next:
 		it := x.get(fr, in.Iter).(*MapIter)
 		if in.IsString {
-			panic(unsupported{"range over string at " + x.where()})
+			// for i, r := range s: decode one rune per step with the interpreted utf8 decoder
+			s := *it.str
+			x.needContent(s, "range over string")
+			if it.i >= len(s.B) {
+				return Tuple{Bool{C: false}, mkInt(0), Int{W: 32, S: true}}
+			}
+			dec := x.P.stdFunc("unicode/utf8", "DecodeRuneInString")
+			t := x.call(dec, []Val{Str{B: s.B[it.i:]}}, nil).(Tuple)
+			w := x.subst(t[1].(Int))
+			if !w.conc() {
+				panic(unsupported{"symbolic rune width"})
+			}
+			pos := it.i
+			it.i += int(w.sval())
+			return Tuple{Bool{C: true}, mkInt(int64(pos)), t[0]}
 		}
 		mt := in.Iter.(*ssa.Range).X.Type().Underlying().(*types.Map)
 		if it.i >= len(it.keys) {
